@@ -21,6 +21,8 @@ TEXT = {
     "I4": "subroutine a\n real :: sin\n x = cos(1, 2)\nend subroutine a\n",
     "I5": "subroutine a\n real :: sin\nend subroutine a\nsubroutine b\n real :: cos\n @@\nend subroutine b\n",
     "I6": "module a\n real :: sin\ncontains\n subroutine b\n real :: cos\n end subroutine wrong\nend module a\n",
+    # a failing CONTAINED unit that carries the name of a top-level unit of an earlier parse (V1)
+    "I7": "module m2\ncontains\n subroutine a\n real :: cos\n @@ bad\n end subroutine a\nend module m2\n",
 }
 PROBES = {
     "X1": "subroutine a\n x = sin(1.0) + cos(2.0)\nend subroutine a\n",
